@@ -14,3 +14,4 @@ import CruxVerif.Props.C02
 #print axioms Props.C02.channels_unshared_over_runs_partial
 #print axioms Props.C02.channels_unshared_over_runs
 #print axioms Props.C02.commands_never_share_a_channel
+#print axioms Props.C02.channels_unshared_under_core
